@@ -96,18 +96,24 @@ class _PathShim:
     def __init__(self, fs):
         self._fs = fs
 
+    def _sim(self, p):
+        return isinstance(p, str) and p.startswith(storage.PREFIX)
+
     def exists(self, p):
-        if isinstance(p, str) and p.startswith(storage.PREFIX):
-            return self._fs.exists(p)
-        return os.path.exists(p)
+        return self._fs.exists(p) if self._sim(p) else os.path.exists(p)
+
+    lexists = exists
 
     def isfile(self, p):
-        if isinstance(p, str) and p.startswith(storage.PREFIX):
-            return self._fs.exists(p)
-        return os.path.isfile(p)
+        return self._fs.exists(p) if self._sim(p) else os.path.isfile(p)
+
+    def isdir(self, p):
+        return p.rstrip('/') == storage.PREFIX.rstrip('/') if self._sim(p) else os.path.isdir(p)
 
     def getsize(self, p):
-        if isinstance(p, str) and p.startswith(storage.PREFIX):
+        if self._sim(p):
+            if p not in self._fs.files:
+                raise FileNotFoundError(2, 'No such file or directory', p)
             return len(self._fs.files[p])
         return os.path.getsize(p)
 
@@ -115,18 +121,121 @@ class _PathShim:
         return getattr(os.path, name)
 
 
+class _Stat:
+    """The fields of os.stat_result a caller plausibly looks at for a regular file."""
+
+    def __init__(self, size):
+        self.st_size = size
+        self.st_mode = 0o100644
+        self.st_blksize = 4096
+        self.st_blocks = (size + 511) // 512
+        self.st_nlink = 1
+        self.st_uid = self.st_gid = 0
+        self.st_ino = self.st_dev = 1
+        self.st_mtime = self.st_atime = self.st_ctime = 1.7e9
+
+
 class OsShim:
+    """os as seen by the library: paths under the simulated prefix and the fake descriptors of
+    simulated handles are served from SimFS, everything else from the real module."""
+
     def __init__(self, fs):
         self._fs = fs
         self.path = _PathShim(fs)
 
+    def _sim(self, p):
+        return isinstance(p, str) and p.startswith(storage.PREFIX)
+
+    def _handle(self, fd):
+        return self._fs.fds.get(fd) if isinstance(fd, int) else None
+
     def remove(self, p):
-        if isinstance(p, str) and p.startswith(storage.PREFIX):
-            self._fs.files.pop(p)
-            return
+        if self._sim(p):
+            return self._fs.os_remove(p)
         return os.remove(p)
 
     unlink = remove
+
+    def rename(self, a, b):
+        if self._sim(a) or self._sim(b):
+            if not (self._sim(a) and self._sim(b)):
+                raise core.HarnessError('rename between the simulated and the real file system')
+            return self._fs.os_rename(a, b)
+        return os.rename(a, b)
+
+    replace = rename
+
+    def stat(self, p, *a, **k):
+        h = self._handle(p)
+        if h is not None:
+            return self.fstat(p)
+        if self._sim(p):
+            return _Stat(self.path.getsize(p))
+        return os.stat(p, *a, **k)
+
+    def fstat(self, fd):
+        h = self._handle(fd)
+        if h is None:
+            return os.fstat(fd)
+        return _Stat(len(self._fs.files[h._path]))
+
+    def fsync(self, fd):
+        h = self._handle(fd)
+        if h is None:
+            return os.fsync(fd)
+        storage._yp('w.fsync')
+        if hasattr(h, 'os_flush'):
+            h.os_flush()
+
+    fdatasync = fsync
+
+    def ftruncate(self, fd, size):
+        h = self._handle(fd)
+        if h is None:
+            return os.ftruncate(fd, size)
+        storage._yp('w.ftruncate')
+        self._fs.os_truncate(h._path, size, h._hid)
+
+    def truncate(self, p, size):
+        if self._handle(p) is not None:
+            return self.ftruncate(p, size)
+        if self._sim(p):
+            storage._yp('w.ftruncate')
+            return self._fs.os_truncate(p, size)
+        return os.truncate(p, size)
+
+    def posix_fallocate(self, fd, offset, length):
+        h = self._handle(fd)
+        if h is None:
+            return os.posix_fallocate(fd, offset, length)
+        storage._yp('w.fallocate')
+        if offset + length > len(self._fs.files[h._path]):
+            self._fs.os_truncate(h._path, offset + length, h._hid)
+
+    def pread(self, fd, n, offset):
+        h = self._handle(fd)
+        if h is None:
+            return os.pread(fd, n, offset)
+        if not hasattr(h, 'pread'):
+            raise core.HarnessError('unsupported stub API: os.pread on a simulated write handle')
+        return h.pread(n, offset)
+
+    def lseek(self, fd, pos, how):
+        h = self._handle(fd)
+        if h is None:
+            return os.lseek(fd, pos, how)
+        return h.seek(pos, how)
+
+    def read(self, fd, n):
+        h = self._handle(fd)
+        if h is None:
+            return os.read(fd, n)
+        return h.read(n)
+
+    def open(self, p, *a, **k):
+        if self._sim(p):
+            raise core.HarnessError('unsupported stub API: os.open on a simulated path')
+        return os.open(p, *a, **k)
 
     def __getattr__(self, name):
         return getattr(os, name)
@@ -155,6 +264,36 @@ def clear_loader_caches():
                 a.cache_clear()
 
 
+_REAL = {n: getattr(_threading, n) for n in ('Thread', 'Event', 'Lock', 'RLock', 'Condition', 'Semaphore',
+                                              'BoundedSemaphore', 'Barrier')}
+
+
+def _for_library(sim, real):
+    """Callable bound in place of a standard-library class for the duration of a run."""
+    if isinstance(real, type):
+        class _Meta(type):
+            def __call__(cls, *a, **k):
+                caller = sys._getframe(1).f_globals.get('__name__', '')
+                if caller == 'seismic_zfp' or caller.startswith('seismic_zfp.'):
+                    return sim(*a, **k)
+                return real(*a, **k)
+
+            def __instancecheck__(cls, obj):
+                return isinstance(obj, (real, sim))
+
+            def __subclasscheck__(cls, sub):
+                return issubclass(sub, (real, sim))
+
+        return _Meta(real.__name__, (), {'__doc__': real.__doc__, '_real': real, '_sim': sim})
+
+    def factory(*a, **k):
+        caller = sys._getframe(1).f_globals.get('__name__', '')
+        if caller == 'seismic_zfp' or caller.startswith('seismic_zfp.'):
+            return sim(*a, **k)
+        return real(*a, **k)
+    return factory
+
+
 class SimEnv:
     def __init__(self, fs, mem_total=64 << 30, cpu_count=4, version=STUB_VERSION, quiet=True):
         self.fs = fs
@@ -174,25 +313,42 @@ class SimEnv:
         clock = VClock()
         osshim = OsShim(fs)
         simcf = core.SimCF()
-        self._set(m_cu, 'Thread', core.SimThread)
-        self._set(m_cu, 'Queue', core.SimQueue)
+        import time as _time
+        import psutil as _psutil
+        # real object -> simulated stand-in, wherever a module of the library has bound it
+        swap = [(_threading.Thread, core.SimThread), (_queue.Queue, core.SimQueue),
+                (_queue.LifoQueue, core.SimLifoQueue), (_queue.SimpleQueue, core.SimSimpleQueue),
+                (_cf.ThreadPoolExecutor, core.SimExecutor), (_cf.wait, core.sim_wait),
+                (_cf.as_completed, core.sim_as_completed),
+                (_REAL['Event'], core.SimEvent), (_REAL['Lock'], core.SimLock), (_REAL['RLock'], core.SimRLock),
+                (_REAL['Condition'], core.SimCondition), (_REAL['Semaphore'], core.SimSemaphore),
+                (_REAL['BoundedSemaphore'], core.SimBoundedSemaphore), (_REAL['Barrier'], core.SimBarrier),
+                (os, osshim), (os.path, osshim.path), (_time, clock), (_psutil, ps), (_cf, simcf),
+                (_time.time, clock.time), (_time.sleep, clock.sleep), (_time.monotonic, clock.monotonic),
+                (_time.perf_counter, clock.perf_counter)]
+        for mname in sorted(sys.modules):
+            mod = sys.modules[mname]
+            if mod is None or not (mname == 'seismic_zfp' or mname.startswith('seismic_zfp.')):
+                continue
+            for attr, val in list(vars(mod).items()):
+                for real, sim in swap:
+                    if val is real:
+                        self._set(mod, attr, sim)
+                        break
+            self._set(mod, 'open', fs.open)
         self._set(m_cu, 'pkg_resources', VersionStub(self.version))
-        self._set(m_cu, 'time', clock)
-        self._set(m_cu, 'open', fs.open)
-        self._set(m_conv, 'open', fs.open)
-        self._set(m_conv, 'os', osshim)
-        self._set(m_conv, 'psutil', ps)
-        self._set(m_conv, 'time', clock)
-        self._set(m_crop, 'open', fs.open)
-        self._set(m_read, 'open', fs.open)
-        self._set(m_read, 'os', osshim)
-        self._set(m_loader, 'cf', simcf)
-        self._set(m_loader, 'psutil', ps)
-        self._set(m_utils, 'time', clock)
-        # belt and braces: a change that reaches for the stdlib names directly is simulated too
-        self._set(_threading, 'Thread', core.SimThread)
-        self._set(_queue, 'Queue', core.SimQueue)
-        self._set(_cf, 'ThreadPoolExecutor', core.SimExecutor)
+        # a change that reaches for the standard-library names at call time is simulated too: the
+        # module attributes become factories that hand the simulated class to callers inside the
+        # library and the real one to everybody else (threading itself, queue, logging ...)
+        for name, sim in (('Thread', core.SimThread), ('Event', core.SimEvent), ('Lock', core.SimLock),
+                          ('RLock', core.SimRLock), ('Condition', core.SimCondition),
+                          ('Semaphore', core.SimSemaphore), ('BoundedSemaphore', core.SimBoundedSemaphore),
+                          ('Barrier', core.SimBarrier)):
+            self._set(_threading, name, _for_library(sim, _REAL[name]))
+        for name, sim in (('Queue', core.SimQueue), ('LifoQueue', core.SimLifoQueue),
+                          ('SimpleQueue', core.SimSimpleQueue)):
+            self._set(_queue, name, _for_library(sim, getattr(_queue, name)))
+        self._set(_cf, 'ThreadPoolExecutor', _for_library(core.SimExecutor, _cf.ThreadPoolExecutor))
         if self.quiet:
             self._saved.append((sys, 'stdout', sys.stdout))
             sys.stdout = _NULL
